@@ -136,10 +136,43 @@ def scan():
                 p = par.get(n)
                 chain = ast.unparse(par.get(par.get(p, p), p))[:200] if p else ""
                 neu = "id-attribute-default" if "id_" in ast.unparse(_enclosing_stmt(n, par)) else "other-use"
+                if neu == "other-use":
+                    # inside a module-level helper every call of which is the value bound to an `id_` attribute
+                    helper = _enclosing_def(n, par)
+                    if helper is not None and par.get(helper) is tree and _only_id_values(helper.name):
+                        neu = "id-attribute-default"
             else:
                 neu = "unaccounted"
             sites.append((rel, func_of(n, par), kind, neu))
     return sites
+
+
+def _enclosing_def(n, par):
+    while n in par:
+        n = par[n]
+        if isinstance(n, (ast.FunctionDef, ast.AsyncFunctionDef)):
+            return n
+    return None
+
+
+def _only_id_values(fname):
+    """every occurrence of the name `fname` under generator/ is its definition or a call `fname()` that is the whole value of an
+    assignment to a target named `id_`"""
+    uses = 0
+    for f, (t, par) in all_trees().items():
+        for n in ast.walk(t):
+            if isinstance(n, ast.Name) and n.id == fname:
+                p = par.get(n)
+                if not (isinstance(p, ast.Call) and p.func is n):
+                    return False
+                pp = par.get(p)
+                tgt = pp.target if isinstance(pp, ast.AnnAssign) and pp.value is p else (pp.targets[0] if isinstance(pp, ast.Assign) and pp.value is p and len(pp.targets) == 1 else None)
+                if not (isinstance(tgt, ast.Name) and tgt.id == "id_"):
+                    return False
+                uses += 1
+            elif isinstance(n, ast.Attribute) and n.attr == fname:
+                return False
+    return uses > 0
 
 
 def _enclosing_stmt(n, par):
@@ -189,6 +222,19 @@ def state_sites():
         par = parents(tree)
         containers, objects = {}, {}
 
+        modfuncs = {st.name: st for st in tree.body if isinstance(st, ast.FunctionDef)}
+
+        def returns_benign(ctor, depth=0):
+            """a module-level helper whose body is a single `return <benign constructor>(...)` (e.g. a shared attrs.field declaration)"""
+            f = modfuncs.get(ctor)
+            if f is None or depth > 3:
+                return False
+            body = [st for st in f.body if not (isinstance(st, ast.Expr) and isinstance(st.value, ast.Constant))]
+            if len(body) == 1 and isinstance(body[0], ast.Return) and isinstance(body[0].value, ast.Call):
+                inner = ast.unparse(body[0].value.func)
+                return inner in BENIGN_CTORS or returns_benign(inner, depth + 1)
+            return False
+
         def classify(target, value, owner):
             if not isinstance(target, ast.Name) or value is None:
                 return
@@ -198,7 +244,7 @@ def state_sites():
                 ctor = ast.unparse(value.func)
                 if ctor in CONTAINER_CTORS:
                     containers[target.id] = owner
-                elif ctor not in BENIGN_CTORS:
+                elif ctor not in BENIGN_CTORS and not returns_benign(ctor):
                     objects[target.id] = (owner, ctor)
 
         for st in tree.body:
